@@ -48,6 +48,9 @@ INVALID = [
     ('syntax', '# title: "a" # title: "b" globally: no a'),
     ('syntax', '# description: "a" # id: k # description: "a" globally: no a'),
     ('syntax', '# id: k # title: "t" # id: k2 globally: no a'),
+    ('syntax', '# id: k # colour: red globally: no a'),
+    ('syntax', '# title: "t" # description: "d" # size: 3 globally: no a'),
+    ('syntax', '# id: k # title: globally: no a'),
 ]
 
 SEPS = (' ', '\n', '\n\n\t')
@@ -231,6 +234,14 @@ def run(unit):
                         r.count('states')
                         for kind, detail in check_file(parts, [{}] * n, sep, r):
                             r.violation(kind, {'parts': parts, 'sep': sep}, detail, size=sum(len(p) for p in parts))
+                        # history of length 2 on the same parser object: a rejected file must leave nothing behind
+                        vparts, vmetas = [], []
+                        for k, idx in enumerate((2, 5)):
+                            t_, m_ = annotate(POOL[idx], ('title', 'id') if k == 0 else ('description',), k)
+                            vparts.append(t_)
+                            vmetas.append(m_)
+                        for kind, detail in check_file(vparts, vmetas, '\n', r):
+                            r.violation(kind + ' (after a rejected file, same parser object)', {'parts': parts, 'sep': sep, 'then': vparts}, detail, size=sum(len(p) for p in parts))
         # dangling annotation after the last property
         for sep in SEPS:
             parts = [POOL[0], POOL[2]]
@@ -264,7 +275,7 @@ def replay(w):
 def describe(tier):
     b = bounds(tier)
     return {
-        'rule': f"all sequences of 1..{b['seq_len']} properties from a 14-text pool (and {b['seq_len'] + 1}..{b['seq_len_small_pool']} from a 4-text sub-pool) x every assignment of one of the 16 annotation arrangements (subsets and orders of id/title/description) to <= {b['annotated_members']} members, plus all members fully annotated, x 3 separators; one-invalid-member variants (11 kinds x every index in files of 1..3) and dangling/empty/whitespace files. Each file is compared index by index (typed lift and metadata) with the property parser on the parts. A state = one file text; a transition = one specification parse.",
+        'rule': f"all sequences of 1..{b['seq_len']} properties from a 14-text pool (and {b['seq_len'] + 1}..{b['seq_len_small_pool']} from a 4-text sub-pool) x every assignment of one of the 16 annotation arrangements (subsets and orders of id/title/description) to <= {b['annotated_members']} members, plus all members fully annotated, x 3 separators; one-invalid-member variants (14 kinds x every index in files of 1..3) and dangling/empty/whitespace files; after every rejected file a valid annotated file is parsed with the same parser object (history of length 2). Each file is compared index by index (typed lift and metadata) with the property parser on the parts. A state = one file text; a transition = one specification parse.",
         'bounds': b,
         'exhaustive': True,
         'assumptions': ['the property parser on each part alone is the reference (differential oracle); its own correctness is C01'],
